@@ -135,4 +135,34 @@ CANARIES: Dict[str, Dict[str, Any]] = {
         old="(alpha_attn if (index % 2) == 0 else alpha_mlp)", new="(alpha_mlp if (index % 2) == 0 else alpha_attn)",
         job="c07:tau_rule[parity=0]", expect=["tau_sq_times_S_equals_a_sq"],
     ),
+    "quantise-offset-off-by-one": dict(
+        props=["C13"], file="unit_scaling/formats.py", module="unit_scaling.formats",
+        old="            offset = mask // 2\n", new="            offset = mask // 2 + 2\n",
+        job="c13:quantise[E4M3,nearest]", expect=["nearest("],
+    ),
+    "quantise-offset-zero": dict(
+        props=["C13"], file="unit_scaling/formats.py", module="unit_scaling.formats",
+        old="            offset = mask // 2\n", new="            offset = mask // 4\n",
+        job="c13:quantise[E5M2,nearest]", expect=["nearest("],
+    ),
+    "quantise-wrong-downscale": dict(
+        props=["C13"], file="unit_scaling/formats.py", module="unit_scaling.formats",
+        old="downscale = 2.0 ** (127 - 2 ** (self.exponent_bits - 1))", new="downscale = 2.0 ** (128 - 2 ** (self.exponent_bits - 1))",
+        job="c13:quantise[E4M3,core]", expect=["representable"],
+    ),
+    "quantise-clips-original-dtype": dict(
+        props=["C13"], file="unit_scaling/formats.py", module="unit_scaling.formats",
+        old="q = torch.clip(q, -absmax, absmax)", new="q = torch.clip(x, -absmax, absmax)",
+        job="c13:quantise-dtype[E4M3,float64,rank=1]", expect=["shape_preserved"],
+    ),
+    "quantise-in-place-on-argument": dict(
+        props=["C13"], file="unit_scaling/formats.py", module="unit_scaling.formats",
+        old="        q = torch.clip(q, -absmax, absmax)\n", new="        pass\n",
+        job="c13:quantise[E4M3,core]", expect=["argument_not_modified"],
+    ),
+    "max-value-wrong-mantissa": dict(
+        props=["C13"], file="unit_scaling/formats.py", module="unit_scaling.formats",
+        old="return cast(float, 2**max_exponent * (2 - 2**-self.mantissa_bits))", new="return cast(float, 2**max_exponent * (2 - 2**-(self.mantissa_bits + 1)))",
+        job="c13:range[E4M3]", expect=["max_absolute_value_is_largest_value"],
+    ),
 }
